@@ -45,7 +45,9 @@ def check_qp_agg(ctx: Ctx, name, cls, J, Jt, dtype, s2, pref, reg_eps, norm_eps,
     l1 = sum(abs(v) for v in w)
     uu = Fr(ulp(dtype))
     # + quadprog's own feasibility tolerance (a kernel): (G w)_i >= -1e-8 |w|_1 on the normalised Gramian
-    allow = [Fr(reg_eps) * s2 * max(wi, 0) + (C_FLOAT * m * uu + Fr(1, 10 ** 8)) * s2 * l1 for wi in w]
+    # … and its ABSOLUTE accuracy on the normalised problem (up to 1.4e-15 in the weights whatever the magnitude of the
+    # preference vector, see C03): 2e-14 s^2 m
+    allow = [Fr(reg_eps) * s2 * max(wi, 0) + (C_FLOAT * m * uu + Fr(1, 10 ** 8)) * s2 * l1 + Fr(2, 10 ** 14) * s2 * m for wi in w]
     sl = slack(ctx, J, xs, allow)
     ctx.cov["min_slack_ratio_qp"] = min(ctx.cov.get("min_slack_ratio_qp", 1e9),
                                         min(float(s / (a if a > 0 else 1)) for s, a in zip(sl, allow)) if allow else 1e9)
@@ -100,6 +102,8 @@ def check_cagrad(ctx: Ctx, J, Jt, dtype, s2, fam, c):
     rp = {"aggregator": "cagrad", "family": fam, "J": [[str(v) for v in r] for r in J], "c": c, "dtype": str(dtype)}
     if st != "ok":
         ctx.count("raised", f"cagrad:{x}")
+        # (never observed on the unchanged tree in 55 000 thorough evaluations: the aggregator is total on finite matrices)
+        ctx.violation(f"CAGrad(c={c}) raised {x} on a finite matrix (family {fam})", rp)
         return
     xs = tensor_to_fr(x)
     w = tensor_to_fr(A.weighting(Jt))
